@@ -14,6 +14,9 @@ POOL = {
     "phpass": (7, 9), "bcrypt": (4, 5), "ldap_pbkdf2_sha1": (1, 400), "django_pbkdf2_sha256": (1, 400), "pbkdf2_sha512": (1, 300),
 }
 CATCHALL = ["plaintext", "unix_disabled"]
+GLOBAL_VARY_KEYS = ["vary_rounds", "all__vary_rounds"]
+#: values that survive the two-decimal INI rendering exactly; 1.0 / "100%" sit on the float/int boundary of the renderer
+GLOBAL_VARY_VALUES = [0.1, "10%", 0.25, 0.5, 1.0, "100%", "1.0", 0, 2, "3"]
 CATS = ["admin", "staff"]
 
 
@@ -62,13 +65,16 @@ def rounds_options(draw, scheme, allow_beyond=True):
 
 
 @st.composite
-def configs(draw, max_schemes=5, cats=True, catchall=True):
-    """-> config dict (flat keys), valid by construction in the common case"""
+def configs(draw, max_schemes=5, cats=True, catchall=True, extras=False):
+    """-> config dict (flat keys), valid by construction in the common case.
+    extras (C10): a scheme with a context keyword (postgres_md5: user=) and the documented global settings in both spellings"""
     names = draw(st.lists(st.sampled_from(pool()), min_size=1, max_size=max_schemes, unique=True))
+    if extras and draw(st.integers(0, 3)) == 0:
+        names.insert(draw(st.integers(0, len(names))), "postgres_md5")
     if catchall and draw(st.integers(0, 5)) == 0:
         names.append(draw(st.sampled_from(CATCHALL)))
     cfg = {"schemes": list(names)}
-    real = [n for n in names if n not in CATCHALL] or names
+    real = [n for n in names if n not in CATCHALL and n != "postgres_md5"] or names
     dep_kind = draw(st.sampled_from(["none", "none", "list", "list", "auto"]))
     default = draw(st.one_of(st.none(), st.sampled_from(real)))
     if dep_kind == "auto":
@@ -90,6 +96,10 @@ def configs(draw, max_schemes=5, cats=True, catchall=True):
             cfg[f"{s}__salt_size"] = draw(st.integers(4, 8))
         if s == "phpass" and draw(st.booleans()):
             cfg["phpass__ident"] = draw(st.sampled_from(["P", "H"]))
+    if extras and draw(st.integers(0, 2)) == 0:
+        cfg[draw(st.sampled_from(GLOBAL_VARY_KEYS))] = draw(st.sampled_from(GLOBAL_VARY_VALUES))
+    if extras and draw(st.integers(0, 4)) == 0:
+        cfg[draw(st.sampled_from(["truncate_error", "all__truncate_error"]))] = draw(st.sampled_from([True, False, "true", "false"]))
     if cats and draw(st.booleans()):
         for cat in draw(st.lists(st.sampled_from(CATS), min_size=1, max_size=2, unique=True)):
             k = draw(st.integers(0, 3))
